@@ -232,6 +232,30 @@ def _port_key(p, pp):
     return f"{cls[-1] if cls else '?'}(_, {off[-1] if off else '?'})"
 
 
+def _spt(ctx):
+    """(call text, qualified name, FunctionDef) of the private helper that reads a port's type off a signature: the module function
+    `_sig_port_type(sig, port)`, or -- moved by a refactoring -- a two-parameter static method of a private class of hugr.ops that
+    DataflowOp.port_type hands the outer signature and the port to"""
+    mod = ctx.program.module(OPS)
+    fn = mod.functions.get("_sig_port_type")
+    if fn is not None:
+        return "_sig_port_type", "hugr.ops._sig_port_type", fn
+    dfo = mod.classes.get("DataflowOp")
+    pt = dfo.methods.get("port_type") if dfo else None
+    if pt is not None:
+        for c in calls_in(pt):
+            if isinstance(c.func, ast.Attribute) and isinstance(c.func.value, ast.Name) and c.func.value.id in mod.classes and c.func.value.id.startswith("_") \
+                    and len(c.args) == 2 and not c.keywords:
+                k = mod.classes[c.func.value.id]
+                m_ = k.methods.get(c.func.attr)
+                if m_ is not None and any(u(d) == "staticmethod" for d in m_.decorator_list) and len(m_.args.args) == 2:
+                    return u(c.func), f"hugr.ops.{k.name}.{c.func.attr}", m_
+            if isinstance(c.func, ast.Name) and c.func.id.startswith("_") and c.func.id in mod.functions and len(c.args) == 2 and not c.keywords \
+                    and len(mod.functions[c.func.id].args.args) == 2:
+                return c.func.id, f"hugr.ops.{c.func.id}", mod.functions[c.func.id]
+    ctx.broken("anchor vanished: hugr.ops._sig_port_type")
+
+
 def r3_port_kinds(ctx, nf) -> None:
     """stated over path summaries: `match port` and isinstance/offset tests, statements and conditional expressions coincide"""
     mod = ctx.program.module(OPS)
@@ -296,7 +320,7 @@ def r3_port_kinds(ctx, nf) -> None:
     dm = d.find_method("port_kind")[1]
     pp = dm.args.args[1].arg
     ps = ctx.paths("hugr.ops.DataflowOp.port_kind")
-    want_v = nf.expr_nf(f"tys.ValueKind(_sig_port_type(self.outer_signature(), {pp}))", d, extra={pp: sym(pp)})[0]
+    want_v = nf.expr_nf(f"tys.ValueKind({_spt(ctx)[0]}(self.outer_signature(), {pp}))", d, extra={pp: sym(pp)})[0]
     ok = bool(ps)
     seen = set()
     for p in ps:
@@ -310,11 +334,9 @@ def r3_port_kinds(ctx, nf) -> None:
     ctx.check(bool(ok) and seen == {True, False}, "C06.R3", "hugr.ops.DataflowOp.port_kind", d.module.path, dm.lineno,
               "a dataflow op's port is the order port for offset -1 and otherwise a value port typed by its outer signature", dm,
               found="; ".join(p.describe() for p in ps))
-    spt = mod.functions.get("_sig_port_type")
-    if spt is None:
-        ctx.broken("anchor vanished: hugr.ops._sig_port_type")
+    _, spt_q, spt = _spt(ctx)
     sg, pp = spt.args.args[0].arg, spt.args.args[1].arg
-    ps = ctx.paths("hugr.ops._sig_port_type")
+    ps = ctx.paths(spt_q)
     ok = bool(ps)
     seen = set()
     for p in ps:
@@ -360,11 +382,12 @@ def r4_call(ctx, nf) -> None:
               "can have a different arity (row variables)", m, expected=show(inst_in), found=show(got))
     pkm = c.find_method("port_kind")[1]
     pname = pkm.args.args[1].arg
-    want_ty, _ = nf.expr_nf(f"_sig_port_type(self.instantiation, {pname})", c, extra={pname: sym(pname)})
+    want_ty, _ = nf.expr_nf(f"{_spt(ctx)[0]}(self.instantiation, {pname})", c, extra={pname: sym(pname)})
     want_fn, _ = nf.expr_nf("tys.FunctionKind(self.signature)", c)
     ok_fn = False
     ok_val = True
-    for p in ctx.paths("hugr.ops.Call.port_kind"):
+    # (the signature-port helper stays a call here, whatever it is called: its own body is judged by C06.R3)
+    for p in ctx.paths("hugr.ops.Call.port_kind", keep=(_spt(ctx)[1].split(".")[-1],)):
         if p.kind != "return":
             ok_val = False
             continue
